@@ -1458,6 +1458,15 @@ def corpus():
         L("imp", indent=0, prefix="h", dest=["h"], source=None, q=["exact", ["a"]]),
         L("mod", indent=0, name="h.a", path=["h", "a"], val={"lit": F(9)}, unit="m"),
         L("def", indent=0, name="z", path=["z"], kw="float", dims=[], val=ref(["exact", ["h", "a"]]), unit=None)]}))
+    # flat declare-then-assign programs (C17_refinement_declared_partial); the last one leaves a node without value
+    dl = [L("decl", indent=0, name="a", path=["a"], kw="float", dims=[], unit="m"),
+          L("def", indent=0, name="b", path=["b"], kw="int", dims=[], val={"lit": F(2)}, unit=None),
+          L("decl", indent=0, name="v", path=["v"], kw="int", dims=[[2, 2]], unit=None),
+          L("mod", indent=0, name="a", path=["a"], val={"lit": F(300)}, unit="cm"),
+          L("mod", indent=0, name="v", path=["v"], val={"lit": [F(5), F(6)]}, unit=None)]
+    progs.append(("declared-flat", {"sources": [], "base": None, "main": dl}))
+    progs.append(("declared-flat-on-base", {"sources": [], "base": [a3], "main": [dict(l, name="q" + l["name"], path=["q" + l["name"]]) for l in dl]}))
+    progs.append(("declared-flat-unassigned", {"sources": [], "base": None, "main": dl[:4]}))
     # known findings: n:n and text slices
     s3 = L("def", indent=0, name="s", path=["s"], kw="float", dims=[[3, 3]], val={"lit": [F(1), F(2), F(3)]}, unit=None)
     progs.append(("slice-n-n", {"sources": [], "base": None, "main": [
@@ -1612,7 +1621,7 @@ def corpus():
 
 
 # ------------------------------------------------------------------ streams
-def tie_check(ctx, prog, tie, verdict, stream):
+def tie_check(ctx, prog, tie, verdict, stream, imp=None):
     """The refinement theorems' own definitions, evaluated by the driver on this program: for every import line
     the line record `impAt i pre source q` against the record built from the text, and the destination
     `impDest parents i pre` (computed from the model's hierarchy stack) against the destination of the
@@ -1637,6 +1646,67 @@ def tie_check(ctx, prog, tie, verdict, stream):
         # program with verdict "rejected" is no contradiction)
         ctx.count("tie.runNB.%s" % tie["nested"])
         ctx.count("tie.runNB.%s.spec_%s" % (tie["nested"], verdict))
+    if "inv" in tie:
+        # invB (C17_inv_decidable / C17_refinement_env_checked_partial): the invariant the refinement theorems assume
+        # of the environment the main program starts from (parsed base, parsed remote files), as computed by the
+        # driver on the model's environment.  Tied to the real objects: the real base / remote nodes (already
+        # compared field by field with the model's by judge) must all hold a value when invB accepts, and when invB
+        # refuses because of a declared node the real environment must hold a node without value too.
+        mode = ("base" if prog.get("base") is not None else "") + ("remote" if prog["sources"] else "") or "local"
+        ctx.count("tie.invB.%s.%s" % ("accepts" if tie["inv"] else "refuses", mode))
+        if not tie["inv"]:
+            ctx.count("tie.invB.refuses.%s" % ("declared" if tie.get("inv_declared") else "other"))
+        real = None
+        if imp is not None:
+            if "base_before" in imp:
+                srcs = imp.get("base_src_before") or {}
+                if all(isinstance(v, list) for v in srcs.values()):
+                    real = list(imp["base_before"]["nodes"]) + [n for v in srcs.values() for n in v]
+            elif imp.get("status") == "ok" and isinstance(imp.get("sources"), dict) and \
+                    all(isinstance(v, list) for v in imp["sources"].values()):
+                real = [n for v in imp["sources"].values() for n in v]
+        if real is not None:
+            real_declared = [n["name"] for n in real if n["value"] is None]
+            ctx.count("tie.invB.real_%s" % ("declared" if real_declared else "all_valued"))
+            if tie["inv"] and real_declared:
+                ctx.disagreement(stream + ":theorem-tie", {"program": prog},
+                                 "invB accepts the initial environment but the real one holds nodes without value: %s" % real_declared)
+            if tie.get("inv_declared") and not real_declared:
+                ctx.disagreement(stream + ":theorem-tie", {"program": prog},
+                                 "invB refuses the initial environment for a declared node (%s) but every real node holds a value" % tie.get("inv_bad"))
+        if tie.get("base_nested") is not None:
+            # both stages of C17_refinement_on_base_partial: invB on the environment the base text starts from, runNB
+            # on the base text, runNB on the main text in the environment the base parse returned
+            both = tie.get("inv0") and tie["base_nested"] == "accepts" and tie.get("nested") == "accepts"
+            ctx.count("tie.on_base.base_%s" % tie["base_nested"])
+            ctx.count("tie.on_base.covered_%s" % ("yes" if both else "no"))
+            if both and not tie["inv"]:
+                ctx.disagreement(stream + ":theorem-tie", {"program": prog},
+                                 "invB and runNB accept the base stage but invB refuses the environment the base parse returns")
+        if "declared" in tie:
+            # C17_refinement_declared_partial: flat programs of declarations / literal definitions / literal
+            # modifications from an environment accepted by invDB (declared nodes allowed).  verdict "ok" means the
+            # specification accepted and left no node without value: the theorem then demands that the model's parse
+            # (main loop + final validation) succeeds and that the strong invariant holds for the result.
+            tag = tie["declared"] + (".with_decl" if tie.get("declared_has_decl") else "")
+            ctx.count("tie.declared.%s" % tag)
+            if tie["declared"] == "accepts" and verdict == "ok":
+                ctx.count("tie.declared.accepts.spec_ok.final_inv_%s" % tie.get("inv_final"))
+                if tie.get("inv_final") is not True:
+                    ctx.disagreement(stream + ":theorem-tie", {"program": prog},
+                                     "invDB and litFragB accept, the specification accepts and leaves no node without value, "
+                                     "but the model's parse / final invB gives %s" % tie.get("inv_final"))
+            if tie["declared"] == "records-differ" and verdict == "ok" and all(l["indent"] == 0 for l in prog["main"]):
+                ctx.disagreement(stream + ":theorem-tie", {"program": prog},
+                                 "concD of the declared-node theorem builds other line records than the ones that are run")
+        covered = tie["inv"] and tie.get("nested") == "accepts"
+        ctx.count("tie.covered.%s" % ("yes" if covered else "no"))
+        if covered and verdict == "ok":
+            # the conclusion of C17_refinement_env_checked_partial, observed: the model accepts and invB accepts its result
+            ctx.count("tie.covered.spec_ok.final_inv_%s" % tie.get("inv_final"))
+            if tie.get("inv_final") is not True:
+                ctx.disagreement(stream + ":theorem-tie", {"program": prog},
+                                 "invB and runNB accept, the specification accepts, but the model's run / final invB gives %s" % tie.get("inv_final"))
 
 
 def prog_stream(ctx, progs, stream):
@@ -1667,7 +1737,7 @@ def prog_stream(ctx, progs, stream):
                  {"main": text_of(prog["main"])[:400], "spec": verdict, "impl": imp["status"]})
         ctx.count("%s.spec_%s" % (stream, verdict))
         ctx.count("%s.impl_%s" % (stream, imp["status"]))
-        tie_check(ctx, prog, r["ok"].get("tie"), verdict, stream)
+        tie_check(ctx, prog, r["ok"].get("tie"), verdict, stream, imp)
         ctx.count("%s.mode_%s" % (stream, ("base" if prog.get("base") is not None else "") + ("remote" if prog["sources"] else "") or "local"))
         for l in prog["main"]:
             if l["k"] in ("def", "mod") and "ref" in l["val"]:
@@ -1947,6 +2017,43 @@ def none_stream(ctx, count):
         none_judge(ctx, text, expect, form)
 
 
+def gen_declared(rng):
+    """flat programs of declarations, literal definitions and literal modifications (the fragment of
+    C17_refinement_declared_partial): nodes are declared without value and assigned later — or never"""
+    names = ["a", "b", "c", "d", "e"]
+    cat = {}
+    lines = []
+    for _ in range(rng.randint(2, 7)):
+        free = [x for x in names if x not in cat]
+        if free and (not cat or rng.random() < 0.5):
+            nm = rng.choice(free)
+            kw = rng.choice(["float", "float", "int", "str", "bool"])
+            shape = [] if rng.random() < 0.7 else [rng.randint(1, 3)]
+            unit = rng.choice([None, "m", "cm"]) if kw == "float" else None
+            dims = exact_dims(shape, rng)
+            cat[nm] = (kw, shape, unit)
+            if rng.random() < 0.55:
+                lines.append(L("decl", indent=0, name=nm, path=[nm], kw=kw, dims=dims, unit=unit))
+            else:
+                lines.append(L("def", indent=0, name=nm, path=[nm], kw=kw, dims=dims, val={"lit": gen_value(rng, kw, shape)}, unit=unit))
+        else:
+            nm = rng.choice(sorted(cat))
+            kw, shape, unit = cat[nm]
+            # values of the node's own type and shape only: what the casts make of anything else is C14's business
+            vkw = kw
+            munit = rng.choice([None, "mm", "m"]) if (kw == "float" and unit) else (None if rng.random() < 0.95 else "m")
+            lines.append(L("mod", indent=0, name=nm, path=[nm], val={"lit": gen_value(rng, vkw, shape)}, unit=munit))
+    if rng.random() < 0.8:
+        # assign what is still without value (mostly with a value of the declared type)
+        valued = {l["name"] for l in lines if l["k"] in ("def", "mod")}
+        for nm in sorted(cat):
+            if nm not in valued:
+                kw, shape, unit = cat[nm]
+                lines.append(L("mod", indent=0, name=nm, path=[nm], val={"lit": gen_value(rng, kw, shape)},
+                               unit=rng.choice([None, "mm"]) if (kw == "float" and unit) else None))
+    return {"sources": [], "base": None, "main": lines}
+
+
 def correspond(ctx):
     thorough = ctx.tier == "thorough"
     unit_table()
@@ -1958,6 +2065,8 @@ def correspond(ctx):
     slice_stream(ctx, 3000 if thorough else 400)
     query_stream(ctx, 3000 if thorough else 400)
     none_stream(ctx, 600 if thorough else 60)
+    # last, so that the streams above see the random sequence they saw before this stream existed
+    prog_stream(ctx, [("declared", gen_declared(ctx.rng)) for _ in range(600 if thorough else 60)], "declared")
 
 
 def search(ctx):
